@@ -105,6 +105,12 @@ def gate_by_id(gid):
         g = const_diag_gate(int(base[1:]))
     elif base[0] == "P" and base[1:].isdigit():
         g = const_monomial_gate(int(base[1:]))
+    elif base in ("UA", "UB", "UC"):
+        # three DIFFERENT constant custom gates that share the gate name "U" (a name re-used from one circuit to the next)
+        from orquestra.quantum.circuits import CustomGateDefinition
+
+        M = {"UA": [[1, 0], [0, I]], "UB": [[1, 0], [0, -1]], "UC": [[0, 1], [I, 0]]}[base]
+        g = CustomGateDefinition("U", sympy.Matrix(M), ())()
     elif base in ("CDI", "CSY(th0)", "CSY(0.7)"):
         from .props import c07
 
